@@ -36,6 +36,12 @@ func (o Ob) Key() string {
 	return o.Rule + "|" + o.Site + "|" + o.Construct
 }
 
+// BaseKey is Key without the platform suffix the thorough tier adds to obligations re-established under another
+// GOARCH: a known finding is the same finding on every platform.
+func (o Ob) BaseKey() string {
+	return o.Rule + "|" + o.Site + "|" + strings.TrimSuffix(o.Construct, " [GOARCH=386]")
+}
+
 func (o Ob) String() string {
 	s := fmt.Sprintf("%-10s %-12s %s", o.Status, o.Rule, o.Site)
 	if o.Construct != "" {
@@ -182,7 +188,7 @@ func (r *Report) emit(verifDir string, known *KnownFile, seed int64, wall float6
 			c[0]++
 		case Violated:
 			c[1]++
-			if _, ok := knownKeys[o.Key()]; ok {
+			if _, ok := knownKeys[o.BaseKey()]; ok {
 				knownHit = append(knownHit, o)
 			} else {
 				viol = append(viol, o)
@@ -204,7 +210,10 @@ func (r *Report) emit(verifDir string, known *KnownFile, seed int64, wall float6
 		}
 	}
 	for _, o := range knownHit {
-		f := knownKeys[o.Key()]
+		f := knownKeys[o.BaseKey()]
+		if strings.HasSuffix(o.Construct, " [GOARCH=386]") {
+			continue // already printed for the primary platform
+		}
 		fmt.Printf("KNOWN-FINDING: property=%s rule=%s site=%s %s\n", r.Prop, o.Rule, o.Site, f.What)
 	}
 	exit := 0
